@@ -31,6 +31,7 @@ func Child(args []string) {
 	failFetch := fs.Int("fail-fetch", 0, "the n-th database fetch returns an error")
 	shard := fs.Int("shard", 0, "shard size override (an option change)")
 	extra := fs.Bool("extra-node", false, "source has one more node (a count-changing source change)")
+	override := fs.String("override", "", "identity option overrides: comma separated key=value (batch, codec, level, scrub, salt)")
 	stepLog := fs.String("steps", "", "step log file")
 	fs.Parse(args)
 	var cfg Config
@@ -73,6 +74,21 @@ func Child(args []string) {
 	db.OnFetch = func(n int) { at("db.fetch") }
 	opts := cfg.dumpOptions(*dir, *shard)
 	opts.Resume = *resume
+	for _, kv := range strings.Split(*override, ",") {
+		k, v, _ := strings.Cut(kv, "=")
+		switch k {
+		case "batch":
+			fmt.Sscan(v, &opts.BatchSize)
+		case "codec":
+			opts.Compression = retriever.CompressionCodec(v)
+		case "level":
+			fmt.Sscan(v, &opts.ZstdLevel)
+		case "scrub":
+			opts.Scrub = retriever.ScrubMode(v)
+		case "salt":
+			opts.Salt = v
+		}
+	}
 	res, err := retriever.Dump(context.Background(), db, "fake", cfg.targets(), opts)
 	out := map[string]any{"ok": err == nil, "steps": step}
 	if err != nil {
@@ -92,7 +108,7 @@ type childResult struct {
 	Labels []string
 }
 
-func runChild(cfg Config, dir string, resume bool, crashAt, failFetch, shard int, extra bool) childResult {
+func runChild(cfg Config, dir string, resume bool, crashAt, failFetch, shard int, extra bool, override ...string) childResult {
 	exe, err := os.Executable()
 	if err != nil {
 		tr.Fatal("executable: %v", err)
@@ -113,6 +129,9 @@ func runChild(cfg Config, dir string, resume bool, crashAt, failFetch, shard int
 	}
 	if extra {
 		args = append(args, "-extra-node")
+	}
+	if len(override) > 0 && override[0] != "" {
+		args = append(args, "-override", override[0])
 	}
 	cmd := exec.Command(exe, args...)
 	out, err := cmd.Output()
@@ -204,7 +223,24 @@ func (s scenario) run(root string, id int) []any {
 		src.Graphs = append(src.Graphs, srcGraph{Name: g.Name, Nodes: s.cfg.nodeIDs(gi), Edges: s.cfg.edgeIDs(gi)})
 	}
 	evs := []any{src}
-	r := runChild(s.cfg, dir, false, s.K1, s.F1, 0, false)
+	// identity options: which one the resume changes ("options:<kind>"); scrubbing needs a salt from the first run on
+	optKind := strings.TrimPrefix(s.change, "options:")
+	firstOverride, resumeOverride := "", ""
+	if strings.HasPrefix(s.change, "options") {
+		switch optKind {
+		case "batch":
+			resumeOverride = fmt.Sprintf("batch=%d", s.cfg.Batch+1)
+		case "codec":
+			resumeOverride = "codec=" + map[string]string{"none": "gzip", "gzip": "zstd", "zstd": "none"}[s.cfg.Codec]
+		case "level":
+			firstOverride, resumeOverride = "codec=zstd,level=3", "codec=zstd,level=5"
+		case "salt":
+			firstOverride, resumeOverride = "scrub=full,salt=first-salt", "scrub=full,salt=other-salt"
+		case "scrub":
+			firstOverride, resumeOverride = "scrub=full,salt=first-salt", "scrub=none"
+		}
+	}
+	r := runChild(s.cfg, dir, false, s.K1, s.F1, 0, false, firstOverride)
 	ev := runEv{E: "run", Hid: id, Kind: "dump", Changed: "none", CrashAt: s.K1, Point: r.Point, OK: r.OK, Err: r.Err, Dir: Project(dir), Src: src.Graphs}
 	if r.Killed {
 		ev.How = "crash"
@@ -216,12 +252,13 @@ func (s scenario) run(root string, id int) []any {
 		return evs // nothing to resume
 	}
 	shard, extra := 0, false
-	switch s.change {
-	case "options":
+	switch {
+	case s.change == "options" || s.change == "options:shard":
 		shard = s.cfg.Shard + 1
-	case "source":
+	case strings.HasPrefix(s.change, "options"):
+	case s.change == "source":
 		extra = true
-	case "stray":
+	case s.change == "stray":
 		os.MkdirAll(filepath.Join(dir, "graphs"), 0o755)
 		os.WriteFile(filepath.Join(dir, "graphs", "stray.jsonl"), []byte("{}\n"), 0o644)
 	}
@@ -229,7 +266,10 @@ func (s scenario) run(root string, id int) []any {
 	if changed == "" {
 		changed = "none"
 	}
-	r = runChild(s.cfg, dir, true, s.K2, 0, shard, extra)
+	if strings.HasPrefix(changed, "options") {
+		changed = "options"
+	}
+	r = runChild(s.cfg, dir, true, s.K2, 0, shard, extra, resumeOverride)
 	ev = runEv{E: "run", Hid: id, Kind: "resume", Changed: changed, CrashAt: s.K2, Point: r.Point, OK: r.OK, Err: r.Err, Dir: Project(dir), Src: src.Graphs}
 	if extra && r.OK {
 		// the resume completed against the changed source: what it wrote is a dump of the source it read
@@ -268,6 +308,7 @@ func Explore(args []string) {
 	defer os.RemoveAll(root)
 	var scens []scenario
 	var stepEvents []any
+	var unavailable []string
 	if *only != "" {
 		var o struct {
 			Cfg        Config `json:"cfg"`
@@ -285,7 +326,10 @@ func Explore(args []string) {
 			base := runChild(cfg, d, false, 0, 0, 0, false)
 			os.RemoveAll(d)
 			if !base.OK {
-				tr.Fatal("uninterrupted dump failed for %s: %s", mustJSON(cfg), base.Err)
+				// the configuration cannot be dumped at all: nothing to interrupt.  Reported to the driver, which fails
+				// only if no configuration is left
+				unavailable = append(unavailable, fmt.Sprintf("%s: %s", mustJSON(cfg), base.Err))
+				continue
 			}
 			n := base.Steps
 			stepEvents = append(stepEvents, map[string]any{"e": "steps", "hid": -1 - ci, "cfg": cfg, "labels": base.Labels})
@@ -302,9 +346,25 @@ func Explore(args []string) {
 						scens = append(scens, scenario{"crash2", cfg, k, 0, j, ""})
 					}
 				}
-				for _, ch := range []string{"options", "source", "stray"} {
+				optKinds := []string{"options:shard", "options:batch", "options:codec", "options:salt", "options:scrub", "options:level"}
+				for _, ch := range []string{optKinds[(k+ci+*seed)%len(optKinds)], "source", "stray"} {
 					if *depth2 == "all" || (k+ci+*seed)%4 == 0 {
-						scens = append(scens, scenario{"refuse-" + ch, cfg, k, 0, 0, ch})
+						scens = append(scens, scenario{"refuse-" + strings.SplitN(ch, ":", 2)[0], cfg, k, 0, 0, ch})
+					}
+				}
+				if *depth2 == "all" {
+					for _, ch := range optKinds[1:] {
+						if ch != optKinds[(k+ci+*seed)%len(optKinds)] {
+							scens = append(scens, scenario{"refuse-options", cfg, k, 0, 0, ch})
+						}
+					}
+				}
+			}
+			// every identity option is changed at a few crash points of every configuration (early, middle, late)
+			for _, ch := range []string{"options:shard", "options:batch", "options:codec", "options:salt", "options:scrub", "options:level"} {
+				for _, k := range []int{1 + n/4, 1 + n/2, n - 1} {
+					if k >= 1 && k <= n {
+						scens = append(scens, scenario{"refuse-options", cfg, k, 0, 0, ch})
 					}
 				}
 			}
@@ -340,5 +400,11 @@ func Explore(args []string) {
 		}
 	}
 	w.Close()
-	fmt.Printf("{\"scenarios\":%d,\"events\":%d}\n", len(scens), w.N)
+	if len(scens) == 0 {
+		tr.Fatal("no configuration could be dumped: %v", unavailable)
+	}
+	if unavailable == nil {
+		unavailable = []string{}
+	}
+	fmt.Println(mustJSON(map[string]any{"scenarios": len(scens), "events": w.N, "undumpable_configurations": unavailable}))
 }
